@@ -5,7 +5,8 @@ SPEC = {
     "required_theorems": ["preservation_sound", "preservation_sound_shelleyMA", "preservation_sound_conway", "byron_fees_sound",
                           "mergePolicies_tot", "tot_eq_of_equal"],
     "streams": [{"name": "value", "quick": 400, "thorough": 20000}],
-    "rule": "a case = 2-5 `pv` ops (check_preservation_of_value of one of shelley/allegra/mary/alonzo/babbage/conway through verif_hooks on a "
+    "rule": "a case = 2-5 `pv` ops, half of them repeated as `pvw` = the same scenario as a correctly signed whole transaction (own keys, "
+            "native-script minting policies, fixtures::synth) through validate_txs; pv = (check_preservation_of_value of one of shelley/allegra/mary/alonzo/babbage/conway through verif_hooks on a "
             "synthesized body + UTxO: 1-3 spent values, 1-2 produced values, fee, optional mint; 55% 'related' scenarios whose outputs "
             "balance inputs+mint-fee exactly and are then perturbed by one unit / one asset half of the time, 15% sums crossing 2^63/2^64 "
             "in either input order, 15% burns of assets no input holds balanced by an output of 2^64-n, 15% boundary-weighted junk) + a "
@@ -15,8 +16,8 @@ SPEC = {
                      "add_multiasset_values, values_are_equal, multi_asset_included and the conway_* family) and of "
                      "check_preservation_of_value / get_consumed / get_produced of the four post-Byron validators and Byron check_fees; "
                      "BTreeMap/HashMap = association lists; tie = stream `value` (verdict class per op)",
-                     "the tie is per rule (verif_hooks); the whole validate_tx path of this rule is exercised by the fixtures of the other "
-                     "C3x streams only with balanced transactions",
+                     "the tie is per rule (verif_hooks, `pv`) and through the whole validate_txs (`pvw`: synthesized, correctly signed "
+                     "transactions with fee/min-ada/size rules relaxed so that this rule decides the verdict); Byron is per rule only",
                      "harness/src/fixtures (ported test data, Byron address template)"],
     "assumptions": ["dev profile: u64/i64 sums that overflow are a panic (model verdict `panic`); in a release build the Conway u64 asset "
                     "sum and the Byron `inputs - outputs` subtraction wrap instead - arithmetic totality is C33's subject",
